@@ -27,12 +27,14 @@ class LoopSpec(object):
         self.consts = []         # (name, expr): ghost constants fixed at loop entry
         self.by_prop = {}        # property id -> {'head': [...], 'tail': [...], 'invariants': [...]}
         self.havoc_stmts = []
+        self.exit = []           # statements run on the exit path (guard false), e.g. oblige(...)
 
-    def for_prop(self, pid, head=(), tail=(), invariants=(), consts=()):
+    def for_prop(self, pid, head=(), tail=(), invariants=(), consts=(), exit=()):
         d = self.by_prop.setdefault(pid, {'head': [], 'tail': [], 'invariants': [], 'consts': []})
         d['head'].extend(head)
         d['tail'].extend(tail)
         d['invariants'].extend(invariants)
+        d.setdefault('exit', []).extend(exit)
         d.setdefault('consts', []).extend(consts)
         return self
 
